@@ -76,4 +76,39 @@ def keyOf : Eff → List String
 
 def puts (l : List Eff) : List Eff := l.filter isPut
 
+/-! ### a storage service that may not acknowledge a put
+
+`S3Util.put` raises when `put_object` returns nothing; the exception is not caught anywhere in `get_estimates`, so the call ends there.
+`nack = some k`: the `k`-th remote put of the call (counted from 0) is not acknowledged. -/
+
+inductive Outcome where
+  | completed | notEnough | storageError
+  deriving Repr, DecidableEq
+
+/-- how a call without storage faults ends -/
+def gateOutcome (c : Cfg) : Outcome := if c.gatePass then .completed else .notEnough
+
+/-- walk the effects in order; `i` = number of puts seen so far. Returns the effects that took hold (stored objects, files created),
+    the puts attempted (including the unacknowledged one) and whether the walk was cut short -/
+def walk (nack : Option Nat) : Nat → List Eff → List Eff × List Eff × Bool
+  | _, [] => ([], [], false)
+  | i, e :: rest =>
+    if isPut e then
+      if nack = some i then ([], [e], true)
+      else
+        let r := walk nack (i + 1) rest
+        (e :: r.1, e :: r.2.1, r.2.2)
+    else
+      let r := walk nack i rest
+      (e :: r.1, r.2.1, r.2.2)
+
+structure FaultRun where
+  stored : List Eff        -- effects that took hold, in order
+  attempted : List Eff     -- remote puts attempted, in order
+  outcome : Outcome
+
+def runWithFault (c : Cfg) (nack : Option Nat) : FaultRun :=
+  let r := walk nack 0 (effects c)
+  { stored := r.1, attempted := r.2.1, outcome := if r.2.2 then .storageError else gateOutcome c }
+
 end ElexModel.Persist
